@@ -110,10 +110,11 @@ MkLit(sem, st, r) ==
                   s2 == GAlloc(s1, [k |-> "slots", s |-> <<Len(s1.heap) - 1, Len(s1.heap)>>])
               IN [st |-> s2, val |-> GHdr(Len(s2.heap), 2, 2)]
 
-\* the null a padding evaluation of the left side left behind is an ordinary target of the store
+\* the null a padding evaluation of the left side left behind is treated as absent by the store of
+\* the same statement (it is created in place or overwritten)
 Despec(old, new) ==
   [new EXCEPT !.heap = [i \in 1..Len(new.heap) |->
-      IF i > Len(old.heap) /\ new.heap[i].k = "cell" /\ new.heap[i].v = SpecNull THEN [k |-> "cell", v |-> Null] ELSE new.heap[i]]]
+      IF i > Len(old.heap) /\ new.heap[i].k = "cell" /\ new.heap[i].v = SpecNull THEN [k |-> "cell", v |-> Fresh] ELSE new.heap[i]]]
 
 \* a read that goes through an unset variable: the value (null) is fixed, what
 \* becomes of the variable is not (the pinned code turns it into a container)
@@ -139,6 +140,7 @@ Step(sem, st, op) ==
             IF lt.status # "ok" THEN R3(st, Missing, lt.status)
             ELSE IF rd.status # "ok" THEN rd
             ELSE IF sem # "I" /\ rd.st.taint > st1.taint THEN R3(st, Missing, "wild")   \* both sides evaluated before the store
+            ELSE IF rd.res.t = "fresh" THEN R3(st, Missing, "wild")     \* the right side is the cell the left side just padded
             ELSE IF rd.res.t = "unset" THEN R3(st, Missing, "open")
             ELSE AsP(sem, rd.st, op.p, GCopy(rd.res))
          ELSE LET m == MkLit(sem, st, op.r) IN AsP(sem, m.st, op.p, m.val)
